@@ -3,7 +3,7 @@ import re
 
 import numpy as np
 
-from .. import sx, gen, lib, meaning as M, monitors, minimise, gateset, refexec, apiroute
+from .. import sx, gen, lib, meaning as M, monitors, minimise, gateset, gateset_sig, refexec, apiroute
 from .common import prog_features, sig, case_prog
 from . import execcommon as X
 
@@ -16,7 +16,7 @@ RULE = ("executable programs over the native gate set with aliases-of-aliases an
 ASSUMPTIONS = ["statement-level queries on busy gates are made through the circuit only",
                "reference used set = syntactic reachability through macros, loops of any count, nested blocks, aliases, lets; busy = all qubits, idle = none"]
 TIERS = {"quick": {"shards": 8, "budget_s": 80}, "thorough": {"shards": 16, "budget_s": 360}}
-REQUIRE = {"macro-parameters-given-a-kind": 500, "macro-bodies-analysed-in-a-second-call-site-scope": 100, "macro-bodies-analysed-in-call-site-scope": 300, "gate-set:Ad": 500, "overlap:ref-yes": 100, "overlap:ref-no": 300, "used-circuit-compared": 500, "used-statement-compared": 500,
+REQUIRE = {"whole-register-arguments-analysed": 3000, "busy-gate-beside-active": 100, "busy-gate-beside-active:stretched": 100, "macro-parameters-given-a-kind": 500, "macro-bodies-analysed-in-a-second-call-site-scope": 100, "macro-bodies-analysed-in-call-site-scope": 300, "gate-set:Ad": 500, "overlap:ref-yes": 100, "overlap:ref-no": 300, "used-circuit-compared": 500, "used-statement-compared": 500,
            "permutations-compared": 100, "merge-decisions-observed": 500, "idle-beside-active": 10}
 
 MERGE_LOG = []
@@ -58,6 +58,9 @@ def judge(case):
     prog = case_prog(case)
     variant = case.get("variant", "A")
     st, s = X.setup(prog, variant=variant)
+    if st.startswith("skipped:input-rejected:JaqalError") and X.refused_when_built(prog, None, variant):
+        # an otherwise valid program without overlapping branches, refused when it was built
+        return "ok", [("rejects-disjoint-program:when-built", {"error": str(s.parse_outcome[2])[:200]})], {}
     if st != "ok":
         return st, [], None
     P = s.P
@@ -106,8 +109,8 @@ def judge(case):
         except M.MeaningError:
             continue
         Ps = refexec.Program(t if t[0] in ("seq", "par", "loop", "gate") else ("seq", (t,)), s.n)
-        if any(leaf.name in ("prepare_all", "measure_all") for leaf in Ps.leaves):
-            continue
+        if any(leaf.name in ("prepare_all", "measure_all") or leaf.name.split(gateset_sig.STRETCH_SUFFIX)[0] in gateset_sig.BUSY for leaf in Ps.leaves):
+            continue  # busy gates are asked about through their circuit only (see ASSUMPTIONS)
         o = lib.outcome(lib.used_qubits, stmt)
         if o[0] != "ok":
             fails.append(("used-qubits-raised-on-statement:" + o[1], {"error": o[2]}))
@@ -316,6 +319,105 @@ def process(ctx, case, seen):
         rec.violation(sig("C13", clause, prog_features(small)), d2[0][1] if d2 else detail, small_case)
 
 
+def whole_register_probe(ctx, count):
+    """Whole registers and aliases as gate arguments (gates with a register parameter, also through a macro's register
+    parameter): the analysis names exactly the elements of that register or alias -- chains of whole, sliced, strided and
+    counting-down aliases, bounds literal or by let.  Only the analysis is judged (such gates have no unitary here)."""
+    from . import c06
+
+    rec, rng = ctx.rec, ctx.rng
+    for _ in range(count):
+        nq = rng.randint(2, 7)
+        chain, cur = [], nq
+        for _k in range(rng.randint(1, 3)):
+            spec = rng.choice(c06.level_specs(cur))
+            chain.append(spec)
+            cur = c06.spec_len(spec, cur)
+        lets, hdr, names = {}, [], ["q"]
+
+        def val(v):
+            if rng.random() < 0.3:
+                nm = "c%d" % v if v >= 0 else "m%d" % -v
+                lets[nm] = v
+                return nm
+            return v
+
+        for li, spec in enumerate(chain):
+            nm = "a%d" % li
+            hdr.append(("map", nm, names[-1]) if spec[0] == "whole" else ("map", nm, names[-1], val(spec[1]), val(spec[2]), val(spec[3])))
+            names.append(nm)
+        body = [("gate", "W", nm) for nm in names] + [("gate", "mw", nm) for nm in names[1:]]
+        if len(names) > 2:
+            body.append(("sequential_block", ("gate", "W2", names[-1], names[1])))
+        prog = ("circuit",) + tuple(("let", k, v) for k, v in lets.items()) + (("register", "q", nq),) + tuple(hdr) + (
+            ("macro", "mw", "r", ("sequential_block", ("gate", "W", "r"))),) + tuple(body)
+        rec.case([prog, "whole-register"], nontrivial=True)
+        o = lib.outcome(lib.parse, sx.to_text(prog))
+        if o[0] != "ok":
+            rec.violation(sig("C13", "rejects-valid-program:whole-register-arguments"), {"error": str(o[1:3])[:200], "text": sx.to_text(prog)},
+                          {"kind": "whole", "prog": prog})
+            continue
+        c = o[1]
+        core = M.core_from_sx(prog)
+        ev = M.Evaluator(core, env={}, resolve=True)
+        want_all = set()
+        stmts = list(c.body.statements)
+        for st_sx, st in zip(body, stmts):
+            args = [a for a in sx.walk(st_sx) if a[0] == "gate"][0][2:] if st_sx[0] != "gate" else st_sx[2:]
+            want = set()
+            for a in args:
+                want |= {e[2] for e in ev.elems(core.regs[a], {})}
+            want_all |= want
+            for how, fn in (("statement", lambda: lib.used_qubits(st)), ("statement-after-lets", None)):
+                if fn is None:
+                    continue
+                og = lib.outcome(fn)
+                got = {i for k, v in dict(og[1]).items() for i in v} if og[0] == "ok" else None
+                rec.count("whole-register-arguments-analysed")
+                if got != want:
+                    rec.violation(sig("C13", "used-qubits-wrong:whole-register-argument"),
+                                  {"statement": sx.to_text(("circuit", st_sx)).strip(), "expected": sorted(want), "got": sorted(got) if got is not None else str(og[1:3])[:160],
+                                   "text": sx.to_text(prog)}, {"kind": "whole", "prog": prog})
+                    break
+        for tag, cc in (("circuit", c), ("circuit-after-lets", None)):
+            if cc is None:
+                of = lib.outcome(lib.fill_in_let, c)
+                if of[0] != "ok":
+                    continue
+                cc = of[1]
+            og = lib.outcome(lib.used_qubits, cc)
+            got = {i for k, v in dict(og[1]).items() for i in v} if og[0] == "ok" else None
+            rec.count("whole-register-arguments-analysed")
+            if got != want_all:
+                rec.violation(sig("C13", "used-qubits-wrong:whole-register-argument:" + tag),
+                              {"expected": sorted(want_all), "got": sorted(got) if got is not None else str(og[1:3])[:160], "text": sx.to_text(prog)},
+                              {"kind": "whole", "prog": prog})
+
+
+def busy_beside(rng, prog, stretched):
+    """A parallel block in some prepare/measure section with the busy native gate (or its stretched variant) in one branch
+    and a gate on a third qubit in the other: disjoint by their arguments, but a busy gate uses every qubit."""
+    reg = [s for s in prog[1:] if s[0] == "register"]
+    if len(reg) != 1 or not isinstance(reg[0][2], int) or reg[0][2] < 3:
+        return None
+    name, n = reg[0][1], reg[0][2]
+    out, done, open_ = [], False, False
+    for s in prog[1:]:
+        out.append(s)
+        if s == ("gate", "prepare_all"):
+            open_ = True
+        elif s == ("gate", "measure_all"):
+            open_ = False
+        if open_ and not done and s[0] not in sx.HEADER and s[0] != "macro" and rng.random() < 0.5:
+            i, j, k = rng.sample(range(n), 3)
+            busy = ("gate", "GZZ" + (gateset_sig.STRETCH_SUFFIX if stretched else ""), ("array_item", name, i), ("array_item", name, j), 0.3) + ((2.0,) if stretched else ())
+            branches = [busy, ("gate", "X", ("array_item", name, k))]
+            rng.shuffle(branches)
+            out.append(("parallel_block",) + tuple(branches))
+            done = True
+    return ("circuit",) + tuple(out) if done else None
+
+
 def shard(ctx):
     rec = ctx.rec
     monitors.install_contracts()
@@ -338,13 +440,25 @@ def shard(ctx):
             case["variant"] = "Ad"  # every gate definition derived by copy() from one that was already used
         if rng.random() < 0.25:
             case["typed"] = True
+        if rng.random() < 0.15:
+            st_ = rng.random() < 0.5
+            bp = busy_beside(rng, prog, st_)
+            if bp is not None:
+                case["prog"] = bp
+                if st_:
+                    case["variant"] = "As"
+                rec.count("busy-gate-beside-active" + (":stretched" if st_ else ""))
         process(ctx, case, seen)
         if i <= 3:
             rec.sample({"text": sx.to_text(prog)})
+    whole_register_probe(ctx, 150 if ctx.quick else 3000)
     monitors.report_contracts(rec)
 
 
 def replay(ctx, case):
+    if case.get("kind") == "whole":
+        print("whole-register probes are replayed by re-running the check; the program is in the replay file")
+        return
     wrap_merge()
     st, fails, info = judge(case)
     prog = case_prog(case)
